@@ -2,3 +2,16 @@ From Coq Require Export List Bool NArith.
 From PFL Require Export Base.ListSet Spec.Ig Model.Ig.
 Export ListNotations.
 #[global] Open Scope N_scope.
+
+(* ---- C17: the proved model of remove_useless_rules against the rules pyformlang keeps ---- *)
+From PFL Require Export Model.IgUseless.
+Definition irule_eqb (r1 r2 : irule) : bool :=
+  match r1, r2 with
+  | REnd A a, REnd A' a' => N.eqb A A' && match a, a' with Some x, Some y => N.eqb x y | None, None => true | _, _ => false end
+  | RProd A B f, RProd A' B' f' => N.eqb A A' && N.eqb B B' && N.eqb f f'
+  | RCons f A B, RCons f' A' B' => N.eqb f f' && N.eqb A A' && N.eqb B B'
+  | RDup A B C, RDup A' B' C' => N.eqb A A' && N.eqb B B' && N.eqb C C'
+  | _, _ => false
+  end.
+Definition ig_same_rules (l1 l2 : list irule) : bool :=
+  forallb (fun r => existsb (irule_eqb r) l2) l1 && forallb (fun r => existsb (irule_eqb r) l1) l2.
